@@ -477,8 +477,8 @@ def check(run):
     n += latin1(run, m, F, E)
     run.floor('codec value classes', n, 18)
     run.floor('well-formed classes x (validator, repairer)', wellformed_accepted(run, m, F, E), 18)
-    pairs = conv.discover(m, F)
-    run.floor('convert loops (flow)', flows(run, m, F, pairs), 12)
+    pairs = conv.discover(m, F, run, 'R01.1')
+    run.floor('convert loops (flow)', flows(run, m, F, pairs) + conv.ODD[0], 12)
     run.floor('forwarding overloads', forwarders(run, m, F), 20)
     # measure helpers agree with the encoders on widths: covered by C03 R03.2; mode independence by C02 R02.2
     for o in [o for o in run.obs if o['rule'] == 'R01.1'][:4] + [o for o in run.obs if o['rule'] == 'R01.2'][:2]:
